@@ -5,6 +5,7 @@ every such function (it is data carried by the items).
 -/
 import NumbersModel.Lemmas.Items
 import NumbersModel.Lemmas.TrItems
+import NumbersModel.Lemmas.DocTreeOps
 namespace NumbersModel.Props.C19
 open NumbersModel NumbersModel.Items
 
@@ -140,3 +141,193 @@ example : ItemsList.getitem [⟨0, "a".toList⟩, ⟨1, "b".toList⟩] (.int (-1
 example : ItemsList.getitem [⟨0, "a".toList⟩, ⟨1, "b".toList⟩] (.str "b".toList) = .ok ⟨1, "b".toList⟩ := by decide
 
 end NumbersModel.Props.C19.Src
+
+
+/-! ## Names and order after save and reopen — the document tree (`Model/DocTree.lean`)
+
+`Valid d`: identifiers distinct and below `_max_id`, every table info is listed by the sheet that is its parent, no two
+table infos share a table model. It holds for every document the check loads (checked on the live store) and is kept by
+every history (`valid_after_history`). -/
+namespace NumbersModel.Props.C19
+open NumbersModel NumbersModel.Layout NumbersModel.DocTree
+
+/-- every history of add_sheet / add_table / renames / caption and visibility changes / header counts / creation of other
+    objects keeps the side conditions -/
+theorem valid_after_history (d0 d : Doc) (ops : List Op) (hv : Valid d0) (hr : run d0 ops = .ok d) : Valid d :=
+  run_valid ops hv hr
+
+/-- **names and order after save and reopen**: whatever package holds exactly the store's objects — the archives in ANY
+    order inside the members, the members in ANY order, objects moved between members — the reopened document shows the
+    same sheets in the same order and, per sheet, the same tables in the same order. -/
+theorem order_after_reload (d : Doc) (hv : Valid d) (ms : List Member) (hp : (flatArchives ms).Perm d.objects) :
+    names (load ms).objects = names d.objects := by
+  have hn : ((flatArchives ms).map Prod.fst).Nodup := (List.Perm.map Prod.fst hp).nodup_iff.mpr hv.nodup
+  rw [load_objects ms hn]
+  exact names_perm d.objects _ hp hv.nodup hv.listed'
+
+/-- the package `Document.save` writes is such a package (`FilesMatch`: the archive segments of the members are the
+    store's objects, each once — checked on every saved file), and so is every rearrangement of it -/
+theorem order_after_reload_saved (d : Doc) (hv : Valid d) (hf : (fileIds d.files).Perm (dictKeys d.objects))
+    (ms : List Member) (hp : (flatArchives ms).Perm (flatArchives (serialise d))) :
+    names (load ms).objects = names d.objects :=
+  order_after_reload d hv ms (hp.trans (serialise_perm d hv.nodup hf))
+
+/-- … for every history -/
+theorem order_after_reload_history (d0 d : Doc) (ops : List Op) (hv : Valid d0) (hr : run d0 ops = .ok d)
+    (ms : List Member) (hp : (flatArchives ms).Perm d.objects) : names (load ms).objects = names d.objects :=
+  order_after_reload d (valid_after_history d0 d ops hv hr) ms hp
+
+/-- adding a sheet appends its reference: the sheets that were there keep their positions, the new one is last -/
+theorem add_sheet_appends (d d' : Doc) (name : Text) (sid : Nat) (ss : List Nat) (hv : Valid d)
+    (hs : sheetIds d.objects = .ok ss) (h : addSheet d name = .ok (d', sid)) :
+    sheetIds d'.objects = .ok (ss ++ [sid]) ∧ sheetName d'.objects sid = .ok (some name) := by
+  unfold addSheet at h
+  obtain ⟨⟨d1, s1⟩, h1, h⟩ := bind_ok _ _ _ h
+  obtain ⟨d2, h2, h⟩ := bind_ok _ _ _ h
+  injection h with h; injection h with e1 e2; subst e1; subst e2
+  obtain ⟨v1, _, _, hid, _, hg1⟩ := createObject_valid hv _ _ (by simp [IsInfo]) _ h1
+  have hfresh : s1 ∉ dictKeys d.objects := by rw [hid]; exact fresh_of_bound hv
+  obtain ⟨o, o', hg, hf, rfl⟩ := modify_ok d1 _ _ d2 h2
+  -- the document object before the call
+  simp only [sheetIds, getObj, dictGet, bind, Except.bind] at hs
+  cases hd : dictGet? d.objects Gen.DOCUMENT_ID with
+  | none => simp [hd] at hs
+  | some od =>
+    simp only [hd] at hs
+    cases od <;> simp only [reduceCtorEq] at hs
+    rename_i ss0
+    injection hs with hs; subst hs
+    obtain ⟨_, _, hob⟩ := createObject_ok d _ _ d1 s1 h1
+    have hd1 : dictGet? d1.objects Gen.DOCUMENT_ID = some (.document ss0) := by
+      rw [hob, dictSet_fresh _ _ _ (fresh_of_bound hv)]
+      exact dictGet?_append_of_some _ _ _ _ hd
+    rw [hd1] at hg; injection hg with hg; subst hg
+    simp only at hf
+    injection hf with hf; subst hf
+    have hne : Gen.DOCUMENT_ID ≠ s1 := by
+      rintro e
+      exact hfresh (e ▸ mem_keys_of_get _ _ _ hd)
+    constructor
+    · simp [sheetIds, getObj, dictGet, dictGet?_dictSet, bind, Except.bind]
+    · simp [sheetName, dictGet?_dictSet, hne, hg1]
+
+/-! ### isolation: a change to one table leaves every other name, and all order, as it was -/
+
+theorem sti_nonInfo (sid : Option Nat) (k : Nat) (v : Obj) (hv : ¬ IsInfo v) : sheetTableInfos [(k, v)] sid = [] := by
+  cases v <;> simp_all [sheetTableInfos, IsInfo]
+
+theorem sti_cons (a : Nat × Obj) (r : Objects) (sid : Option Nat) :
+    sheetTableInfos (a :: r) sid = sheetTableInfos [a] sid ++ sheetTableInfos r sid := by
+  unfold sheetTableInfos
+  rw [show a :: r = [a] ++ r from rfl, List.filterMap_append]
+
+theorem sheetTableInfos_dictSet (os : Objects) (k : Nat) (o o' : Obj) (sid : Option Nat) (hg : dictGet? os k = some o)
+    (ho : ¬ IsInfo o) (ho' : ¬ IsInfo o') : sheetTableInfos (dictSet os k o') sid = sheetTableInfos os sid := by
+  induction os with
+  | nil => simp [dictGet?] at hg
+  | cons a r ih =>
+    obtain ⟨k', v⟩ := a
+    simp only [dictGet?] at hg
+    simp only [dictSet]
+    by_cases hk : k' = k
+    · simp only [hk, if_true] at hg ⊢
+      injection hg with hg; subst hg
+      rw [sti_cons, sti_cons (k, v) r, sti_nonInfo sid k o' ho', sti_nonInfo sid k v ho]
+    · simp only [hk, if_false] at hg ⊢
+      rw [sti_cons, sti_cons (k', v) r, ih hg]
+
+/-- a setter of a table's own fields (name, name visibility, header counts): the sheets, their names, the tables of every
+    sheet and their order, and the name of every other table are what they were -/
+theorem isolation_table_setter (d d' : Doc) (tid : Nat) (f : Obj → PyM Obj)
+    (hf : ∀ o o', f o = .ok o' → ∃ a b c e a' b' c' e', o = .tableModel a b c e ∧ o' = .tableModel a' b' c' e')
+    (h : modify d tid f = .ok d') :
+    sheetIds d'.objects = sheetIds d.objects ∧ (∀ s, sheetName d'.objects s = sheetName d.objects s) ∧
+    (∀ s, tableIds d'.objects (some s) = tableIds d.objects (some s)) ∧
+    (∀ t, t ≠ tid → tableName d'.objects t = tableName d.objects t) := by
+  obtain ⟨o, o', hg, hfo, rfl⟩ := modify_ok d tid f d' h
+  obtain ⟨a, b, c, e, a', b', c', e', rfl, rfl⟩ := hf o o' hfo
+  have hinf := fun sid => sheetTableInfos_dictSet d.objects tid _ (.tableModel a' b' c' e') sid hg (by simp [IsInfo]) (by simp [IsInfo])
+  refine ⟨?_, ?_, ?_, ?_⟩
+  · by_cases hk : tid = Gen.DOCUMENT_ID
+    · subst hk; simp [sheetIds, getObj, dictGet, dictGet?_dictSet, hg, bind, Except.bind]
+    · simp [sheetIds, getObj, dictGet, dictGet?_dictSet, hk]
+  · intro s
+    by_cases hk : tid = s
+    · subst hk; simp [sheetName, dictGet?_dictSet, hg]
+    · simp [sheetName, dictGet?_dictSet, hk]
+  · intro s
+    by_cases hk : tid = s
+    · subst hk; simp [tableIds, hinf, dictGet?_dictSet, hg]
+    · simp [tableIds, hinf, dictGet?_dictSet, hk]
+  · intro t ht
+    simp only [tableName, getObj, dictGet, dictGet?_dictSet, Ne.symm ht, if_false]
+
+/-- renaming a sheet: the sheets and their order, the tables of every sheet and their order, every table name and the name
+    of every other sheet are what they were -/
+theorem isolation_sheet_rename (d d' : Doc) (sid : Nat) (s : Text) (h : setSheetName d sid s = .ok d') :
+    sheetIds d'.objects = sheetIds d.objects ∧ (∀ j, j ≠ sid → sheetName d'.objects j = sheetName d.objects j) ∧
+    (∀ j, tableIds d'.objects (some j) = tableIds d.objects (some j)) ∧
+    (∀ t, tableName d'.objects t = tableName d.objects t) := by
+  obtain ⟨o, o', hg, hfo, rfl⟩ := modify_ok d sid _ d' h
+  cases o <;> simp only [reduceCtorEq] at hfo
+  rename_i nm dr
+  injection hfo with hfo; subst hfo
+  have hinf := fun j => sheetTableInfos_dictSet d.objects sid _ (.sheet s dr) j hg (by simp [IsInfo]) (by simp [IsInfo])
+  refine ⟨?_, ?_, ?_, ?_⟩
+  · by_cases hk : sid = Gen.DOCUMENT_ID
+    · subst hk; simp [sheetIds, getObj, dictGet, dictGet?_dictSet, hg, bind, Except.bind]
+    · simp [sheetIds, getObj, dictGet, dictGet?_dictSet, hk]
+  · intro j hj
+    simp only [sheetName, dictGet?_dictSet, Ne.symm hj, if_false]
+  · intro j
+    by_cases hk : sid = j
+    · subst hk
+      simp only [tableIds, hinf, dictGet?_dictSet, hg, if_true]
+    · simp [tableIds, hinf, dictGet?_dictSet, hk]
+  · intro t
+    by_cases hk : sid = t
+    · subst hk; simp [tableName, getObj, dictGet, dictGet?_dictSet, hg, bind, Except.bind]
+    · simp [tableName, getObj, dictGet, dictGet?_dictSet, hk]
+
+/-! ### the pinned `table_ids`: table order is the store's iteration order, so it follows the file -/
+
+/-- two arrangements of the same three archives (a sheet listing tables 20 then 10, whose infos 11 and 21 are stored in the
+    other order): the pinned code reports the tables in file order, the repaired code in the sheet's order either way -/
+def exSheet : Obj := .sheet "S".toList [21, 11]
+def exStoreA : Objects :=
+  [(1, .document [5]), (5, exSheet), (11, .tableInfo 5 10 0 false 0 0), (21, .tableInfo 5 20 0 false 0 0),
+   (10, .tableModel "A".toList true 1 1), (20, .tableModel "B".toList true 1 1)]
+def exStoreB : Objects :=
+  [(1, .document [5]), (5, exSheet), (21, .tableInfo 5 20 0 false 0 0), (11, .tableInfo 5 10 0 false 0 0),
+   (10, .tableModel "A".toList true 1 1), (20, .tableModel "B".toList true 1 1)]
+example : exStoreB.Perm exStoreA := by decide
+example : tableIdsPinned exStoreA (some 5) = .ok [10, 20] ∧ tableIdsPinned exStoreB (some 5) = .ok [20, 10] := by decide
+example : tableIds exStoreA (some 5) = .ok [20, 10] ∧ tableIds exStoreB (some 5) = .ok [20, 10] := by decide
+example : namesPinned exStoreA ≠ namesPinned exStoreB := by decide
+example : names exStoreA = names exStoreB := by decide
+
+/-- the exact condition under which the pinned code keeps the order: the table infos of the sheet come in the same
+    relative order in both stores -/
+theorem order_after_reload_pinned (os os' : Objects) (s : Nat)
+    (h : sheetTableInfos os' (some s) = sheetTableInfos os (some s)) :
+    tableIdsPinned os' (some s) = tableIdsPinned os (some s) := by
+  simp only [tableIdsPinned, h]
+
+/-! ### non-vacuity: a real-shaped history, saved, archives reversed, reopened -/
+def exDoc : Doc :=
+  { objects := [(1, .document [5]), (5, .sheet "S".toList [11]), (11, .tableInfo 5 10 12 false 0 0),
+                (10, .tableModel "T".toList true 1 1), (12, .standinCaption)],
+    files := [("Index/Document.iwa".toList, some [1, 5]), ("Index/CalculationEngine.iwa".toList, some [11, 10, 12]),
+              ("Metadata/DocumentIdentifier".toList, none)],
+    maxId := 1000000 }
+def exOps : List Op :=
+  [.addTable 5 "U".toList 10 0 0 3 1 1, .addSheet "S2".toList, .setTableName 10 "T'".toList, .setCaption 10 "cap".toList]
+example : (run exDoc exOps).toOption.isSome = true := by decide
+example : (do let d ← run exDoc exOps; names d.objects) =
+    .ok [(some "S".toList, ["T'".toList, "U".toList]), (some "S2".toList, [])] := by decide
+example : (do let d ← run exDoc exOps; names (load ((serialise d).map fun (m : Member) => ((m.1, m.2.map List.reverse) : Member)).reverse).objects) =
+    .ok [(some "S".toList, ["T'".toList, "U".toList]), (some "S2".toList, [])] := by decide
+example : (do let d ← run exDoc exOps; namesPinned (load ((serialise d).map fun (m : Member) => ((m.1, m.2.map List.reverse) : Member)).reverse).objects) =
+    .ok [(some "S".toList, ["U".toList, "T'".toList]), (some "S2".toList, [])] := by decide
+
+end NumbersModel.Props.C19
